@@ -1,5 +1,5 @@
 """C15 — outlinks and finish acks reach the queue intact, despite queue errors."""
-import json, os, concurrent.futures
+import json, re, os, concurrent.futures
 from . import core
 
 SECTIONS = ["Queue", "Pipeline", "Item"]
@@ -194,8 +194,65 @@ def finisher_acks(ctx, n):
             ctx.disagree({"ops": [{"op": "start", "workers": 2, "tokens": 8}, json.loads(l)]}, a[:500], b[:500])
 
 
+def discovered(ctx, n):
+    """what the postprocessor hands to the finisher for the queue: every outlink (from anchors, from the Link response header, from JSON / XML
+    documents) carries the discovering page as via, that page's hops + 1 (0 when it matches --domains-crawl) and the resolved text"""
+    from urllib.parse import urljoin
+    from . import stage, c06
+    r = ctx.rng
+    h = core.Interactive("stage")
+    run_ = stage.Run(ctx, h)
+    try:
+        for k in range(n):
+            cfg = stage.gen_cfg(r)
+            cfg["maxHops"] = r.choice([1, 2, 3]); cfg["domainsCrawl"] = r.choice([[], [], ["dc.example"]])
+            site = c06.gen_site(r)
+            seed = r.choice(["http://site.example/paged/1", "http://site.example/paged/2", "http://site.example/hub", "http://site.example/api/feed.json",
+                             "http://site.example/", "http://site.example/feedok.xml"])
+            hops = r.choice([0, 0, 1])
+            if hops >= cfg["maxHops"]:
+                hops = 0
+            act, tree, trace = stage.run_seed(run_, cfg, site, seed, seed_id="o%d" % k, hops=hops, max_passes=6, dc_match=stage.dc_matcher(cfg),
+                                              regex_match=stage.regex_matcher(cfg))
+            rp = {"domain": "stage", "cfg": cfg, "seed": seed, "site": site.pages, "seed_hops": hops}
+            dcm = stage.dc_matcher(cfg)
+            pages = {}
+            for t in trace["trees"]:
+                for nd, d, par in stage.walk(t):
+                    pages.setdefault(nd["canon"], nd)
+            nouts = 0
+            for outs in trace.get("outlinks", []):
+                for o in outs:
+                    nouts += 1
+                    page = pages.get(o["via"])
+                    if page is None:
+                        ctx.violation("outlink %s carries via %r, which is no page of the seed" % (o["raw"], o["via"]), rp); break
+                    want = 0 if (cfg["domainsCrawl"] and dcm(o["raw"])) else page["hops"] + 1
+                    if o["hops"] != want:
+                        ctx.violation("outlink %s discovered on %s (hops %d) is handed to the queue with hops %d, expected %d" % (
+                            o["raw"], o["via"], page["hops"], o["hops"], want), dict(rp, url=o["raw"])); break
+            # planted link-header and anchor targets of the seed page are all handed over
+            pg = site.pages.get(seed, {})
+            if act not in ("panic", "refused", "unparsable") and hops < cfg["maxHops"] and pg.get("status", 200) == 200:
+                got = {o["raw"] for outs in trace.get("outlinks", []) for o in outs}
+                planted = [urljoin(seed, x) for x in pg.get("outlinks", [])]
+                planted += [urljoin(seed, m) for m in re.findall(r"<([^>]*)>", pg.get("link", "") or "")]
+                seen = [q["canon"] for q in trace["requests"]]
+                if seed in seen:
+                    for u in planted:
+                        if u not in got and u != seed:
+                            ctx.count("planted-outlink-missing")
+            ctx.case("disc" + json.dumps([cfg, seed, hops]), nouts >= 1)
+            ctx.count("discovery-pages")
+            ctx.count("discovered-outlinks", nouts)
+    finally:
+        h.send({"op": "close"}); h.close()
+    stage.compare(ctx, run_, "C15 outlink discovery")
+
+
 def run(ctx):
     r = ctx.rng
+    discovered(ctx, 400 if ctx.thorough() else 40)
     finisher_acks(ctx, 200 if ctx.thorough() else 12)
     hops_stream(ctx, 3000 if ctx.thorough() else 300)
     lq_stream(ctx, 1500 if ctx.thorough() else 60)
